@@ -128,5 +128,7 @@ def run(check, ctx):
     c_ocb.ocb_tables(check, ctx)
     from . import c_ghash
     c_ghash.ghash_tables(check, ctx)
+    from . import c_aes
+    c_aes.aes_tables(check, ctx)
     check.undecided.append("the block primitives beyond the published vectors (AES/DES/CAST/Blowfish/ARC2/ARC4), Salsa20, GHASH/OCB "
                            "arithmetic in C; mode geometries outside the enumerated table")
